@@ -16,6 +16,7 @@ request 2 is accepted and only counted.  Nothing is asserted for storable cases 
 of them must be answered without contacting the origin, otherwise the cache was not working at all).
 """
 import itertools
+import re
 import time
 
 from vverif import lockstep as ls
@@ -169,8 +170,27 @@ def forbidden_reasons(case):
     return why
 
 
+def _start_with_retries(sq, attempts=4):
+    """Instance start-up is bounded by a 60 s real-time limit in lockstep.wait_ready; on an overloaded machine
+    (ASan start-up + squid -z) that limit is occasionally exceeded.  A failed start is machinery, so retry it."""
+    for i in range(attempts):
+        try:
+            return sq.start()
+        except HarnessError as e:
+            if i == attempts - 1 or not re.search(r'not ready after|exited during start-up|squid -z failed|watchdog', str(e)):
+                raise
+            sq.kill()
+            time.sleep(2 + 3 * i)
+
+
+class RetryWorld(ls.World):
+    def start(self):
+        _start_with_retries(self.sq)
+        return self
+
+
 def make_world(ctx, shard):
-    return ls.World(ctx, 'w%d' % shard, ls.port_base_for_check(ctx.pid, shard), memory_cache=True)
+    return RetryWorld(ctx, 'w%d' % shard, ls.port_base_for_check(ctx.pid, shard), memory_cache=True)
 
 
 def _request(w, case, which):
